@@ -175,16 +175,34 @@ theorem wfT_qHead (g : Term) : wfT (qHead g) = true := by
       simp only [List.map_cons, Args.ofList, wfT, Bool.true_and]
       exact wfAs_ofList_vars as
 
-theorem hornBody_shift (k : Nat) (b : Term) : hornBody (SLD.shift k b) = hornBody b := by
-  unfold hornBody
+theorem cutGoal_rename (ρ : Nat → Nat) (t : Term) : cutGoal (t.rename ρ) = cutGoal t := by
+  unfold cutGoal
+  rw [hornGoal_rename]
+  cases t with
+  | var v =>
+    have h1 : (Term.rename ρ (.var v) == Term.atom "!") = false := by
+      simp [Term.rename, Term.subst]
+    have h2 : (Term.var v == Term.atom "!") = false := by simp
+    rw [h1, h2]
+  | app f as =>
+    have h1 : (Term.rename ρ (.app f as) == Term.atom "!") = false := by
+      simp [Term.rename, Term.subst]
+    have h2 : (Term.app f as == Term.atom "!") = false := by simp
+    rw [h1, h2]
+  | _ => simp [Term.rename, Term.subst]
+
+theorem bodyOK_shift (k : Nat) (b : Term) : bodyOK (SLD.shift k b) = bodyOK b := by
+  unfold bodyOK
   rw [conjuncts_shift, List.all_map]
   congr 1
   funext t
-  simp only [Function.comp, shift_eq_rename, hornGoal_rename]
+  simp only [Function.comp, shift_eq_rename, cutGoal_rename]
 
-theorem hornBody_not_var {b : Term} (h : hornBody b = true) : ∀ v, b ≠ .var v := by
+theorem bodyOK_not_var {b : Term} (h : bodyOK b = true) : ∀ v, b ≠ .var v := by
   rintro v rfl
-  simp only [hornBody, SLD.conjuncts, SLD.wrapVar, SLD.call1, List.all_cons, List.all_nil, Bool.and_true] at h
+  simp only [bodyOK, SLD.conjuncts, SLD.wrapVar, SLD.call1, List.all_cons, List.all_nil, Bool.and_true] at h
+  rcases cutGoal_cases h with h | h
+  · cases h
   rcases hornGoal_shape h with ⟨f, hf, _⟩ | ⟨a, b, hab⟩ | ⟨f, as, hfa, hu, _⟩
   · cases hf
   · simp at hab
@@ -195,8 +213,8 @@ theorem hornBody_not_var {b : Term} (h : hornBody b = true) : ∀ v, b ≠ .var 
 /-- the clause `callGoal` compiles for the goal `g` -/
 def qClause (g : Term) : Term := SLD.rule (qHead g) g
 
-theorem hornClause_qClause {g : Term} (hb : hornBody g = true) (hw : wfT g = true) :
-    hornClause (qClause g) = true := by
+theorem clauseOK_qClause {g : Term} (hb : bodyOK g = true) (hw : wfT g = true) :
+    clauseOK (qClause g) = true := by
   have hh : hornHead (qHead g) = true := by
     unfold qHead
     split
@@ -206,7 +224,7 @@ theorem hornClause_qClause {g : Term} (hb : hornBody g = true) (hw : wfT g = tru
       cases hl : (termVars g []).map Term.var with
       | nil => simp [hl] at h
       | cons a as => simp [Args.ofList, Args.length]
-  simp only [hornClause, qClause, headBody_rule, SLD.rule, SLD.mk2, wfT, wfAs, Bool.and_true, Bool.and_eq_true]
+  simp only [clauseOK, qClause, headBody_rule, SLD.rule, SLD.mk2, wfT, wfAs, Bool.and_true, Bool.and_eq_true]
   exact ⟨⟨⟨wfT_qHead g, hw⟩, hh⟩, hb⟩
 
 /-! ### `callGoal` on the empty environment -/
@@ -225,15 +243,15 @@ theorem app_nil (t : Term) : app [] t = t := by
     simp only [Option.getD_some]
     rw [applyAll_eq_subst isMGU_empty inner t t' h, Term.subst_id]
 
-theorem callGoal_query (g : Term) (K : Cont) (m : MS) (hb : hornBody g = true) (hw : wfT g = true) :
+theorem callGoal_query (g : Term) (K : Cont) (m : MS) (hb : bodyOK g = true) (hw : wfT g = true) :
     callGoal g K [] m = clausesCall [clauseOf (qClause g)] (argList (qHead g)) K [] m := by
-  have hnv := hornBody_not_var hb
+  have hnv := bodyOK_not_var hb
   unfold callGoal
   rw [res_nonvar [] g hnv]
   have hcc : compileCall g [] = .ok ([clauseOf (qClause g)], argList (qHead g)) := by
     unfold compileCall
     simp only [app_nil]
-    have := (clauseOf_spec (qClause g) (hornClause_qClause hb hw)).1
+    have := (clauseOf_spec (qClause g) (clauseOK_qClause hb hw)).1
     change (match compile (toRep (qClause g)) with
       | .ok cs => Except.ok (cs, (termVars g []).map Term.var)
       | .error e => .error e) = _
